@@ -1115,7 +1115,12 @@ class InterpreterAnalyzer(ASTTemplate):
             if self.aggregation_dataset is not None and self.aggregation_grouping is not None:
                 for id_name in self.aggregation_grouping:
                     if id_name not in self.aggregation_dataset.components:
-                        raise SemanticError("1-1-2-4", op=node.op, id_name=id_name)
+                        raise SemanticError(
+                            "1-1-1-10",
+                            op=node.op,
+                            comp_name=id_name,
+                            dataset_name=self.aggregation_dataset.name,
+                        )
                 if len(self.aggregation_dataset.get_measures()) != 1:
                     raise ValueError("Only one measure is allowed")
                 # Deepcopy is necessary for components to avoid changing the original dataset
